@@ -16,7 +16,11 @@ Inductive case :=
 | CStr (n : Z) (p : Z) (h : string)            (* bigIntToStr(n, p) *)
 | CBStr (n : Z) (h : string)                   (* BigIntToStr(n) *)
 | CErc (n : Z) (d : Z) (o : obs)               (* FormatDecimalForERC20(n, d) *)
-| CRocket (n : Z) (d : Z) (o : obs).           (* FormatDecimalForRocket(n, d) *)
+| CRocket (n : Z) (d : Z) (o : obs)            (* FormatDecimalForRocket(n, d) *)
+| CConst (prec md pbase dec base : Z).         (* constants read from the Go source: ParseFloat(s, pbase, prec, md), defaultDecimal, baseNumber *)
+
+Definition mode_code (m : mode) : Z :=
+  match m with ToNearestEven => 0 | ToNearestAway => 1 | ToZero => 2 | AwayFromZero => 3 | ToNegativeInf => 4 | ToPositiveInf => 5 end.
 
 Definition chk_res (r : res Z) (o : obs) : bool :=
   match r, o with
@@ -33,4 +37,6 @@ Definition check (c : case) : bool :=
   | CBStr n h => bytes_eqb (bigint_to_str n) (unhex h)
   | CErc n d o => chk_res (format_erc20 n d) o
   | CRocket n d o => chk_res (format_rocket n d) o
+  | CConst prec md pbase dec base =>
+      (prec =? code_prec) && (md =? mode_code code_mode) && (pbase =? 10) && (dec =? default_decimal) && (base =? 10 ^ default_decimal)
   end.
